@@ -291,13 +291,35 @@ func checkC20(c *Ctx) {
 				{fld("storedMessages", "messages"), smLock, true}, {fld("storedMessages", "messageCountPerSender"), smLock, true}, {fld("storedMessages", "lastUsed"), smLock, true},
 			}
 			ex := []exemption{{"(*msg.Box).initialize$1", "", "body of init.Do: runs once, and every method that touches the maps calls initialize() first (checked below)"}}
+			// the body of init.Do by role: whatever function the package hands to Do of the Box's Once — a
+			// literal or a method value (`b.init.Do(b.setup)`)
+			onceBody := map[*ssa.Function]bool{}
+			if fOnce := m.Field(PkgMsg, "Box", "init"); fOnce != nil {
+				for _, fn := range fns {
+					for _, in := range instrsOf(fn) {
+						cl, ok := in.(*ssa.Call)
+						if !ok || !isCallTo(&cl.Call, "sync", "Once.Do") || len(cl.Call.Args) != 2 {
+							continue
+						}
+						fa, ok := cl.Call.Args[0].(*ssa.FieldAddr)
+						if !ok || fieldOfAddr(fa) != fOnce {
+							continue
+						}
+						if mc, _ := closureLiteral(cl.Call.Args[1]); mc != nil {
+							body := litBody(mc.Fn.(*ssa.Function))
+							onceBody[body] = true
+							ex = append(ex, exemption{FuncName(body), "", "body of init.Do (found by role): runs once, and every method that touches the maps calls initialize() first (checked below)"})
+						}
+					}
+				}
+			}
 			checkGuardedBy(c, L1, m, la, fns, specs, ex)
 			// every function touching the Box maps calls initialize() before (or all its callers do)
 			initFn := m.Func(PkgMsg, "Box", "initialize")
 			for _, sp := range specs[:3] {
 				for _, a := range accessesOf(fns, sp.field) {
 					fn := a.in.Parent()
-					if strings.HasSuffix(FuncName(fn), "initialize$1") {
+					if strings.HasSuffix(FuncName(fn), "initialize$1") || onceBody[fn] || onceBody[rootOfHelper(fn)] {
 						continue
 					}
 					ok := callsBefore(fn, initFn, a.in) || allCallersCallBefore(fns, fn, initFn, 2)
